@@ -12,6 +12,16 @@
 //! MAYV_DUPLEX=1: every endpoint both writes its own stream and reads the peer's on the two halves of `split()`.
 //! Datagram sockets: MAYV_MSGS datagrams of 0 .. MAYV_CHUNK bytes; the reader's buffer is at least as large.
 //!
+//! MAYV_SOCK = unixaccept | tcpaccept: MAYV_LISTENERS listeners (unix: a path under /tmp; tcp: loopback, ephemeral port),
+//! each with one acceptor coroutine, and MAYV_CONNS connector coroutines (`UnixStream::connect` / `TcpStream::connect`),
+//! each starting after a seeded delay of at most MAYV_CLATE ns (acceptors: MAYV_ALATE), so that acceptors block on an
+//! empty backlog and connections wait in the backlog.  unix: every connector then sends its stream and the server side
+//! of the accepted connection (a coroutine per connection) reads it to the end.  tcp: MAYV_REFUSE=1 adds a connector
+//! towards a port nobody listens on (must fail with ConnectionRefused).  Oracles: accept hands out every connection
+//! exactly once and the one the kernel queued at that position (unix: the stream of the accepted socket is the stream
+//! of that connector, byte by byte; tcp: the peer port of the accepted socket is the local port of that connector);
+//! connect returns Ok exactly for the connectors towards a listener; nobody hangs.
+//!
 //! Oracles (on the implementation):
 //!  * every byte arrives unmodified and in order: each received byte is compared with the generator at its stream
 //!    offset (the first differing offset is reported); total and rolling hash are compared at the end
@@ -282,6 +292,228 @@ fn recv_msgs(recv: &dyn Fn(&mut [u8]) -> std::io::Result<usize>, d: &Dir, rng: &
 
 type Job = Box<dyn FnOnce() + Send + 'static>;
 
+/// MAYV_SOCK = unixaccept | tcpaccept (see the head of the file)
+#[allow(clippy::too_many_arguments)]
+fn accept_jobs(ctx: &Ctx, tcp: bool, conns: usize, maxsize: u64, maxchunk: u64, maxbuf: u64, tap_on: bool) -> Vec<(String, bool, Job)> {
+    use std::sync::Mutex;
+    tap::tables(true);
+    let nl = (envn("MAYV_LISTENERS", 1) as usize).max(1);
+    let clate = envn("MAYV_CLATE", 400_000);
+    let alate = envn("MAYV_ALATE", 400_000);
+    let refuse = tcp && envn("MAYV_REFUSE", 0) == 1;
+    const LBASE: u64 = 200;
+    let mut jobs: Vec<(String, bool, Job)> = vec![];
+    let dirs: Arc<Vec<Arc<Dir>>> = Arc::new(
+        (0..conns)
+            .map(|_| {
+                let seed = ctx.rand();
+                let total = if tcp { 0 } else { match ctx.rand() % 6 { 0 => 0, 1 => 1 + ctx.rand() % 16, _ => ctx.rand() % (maxsize + 1) } };
+                Arc::new(Dir { seed, total, sent: AtomicU64::new(0), sent_hash: AtomicU64::new(0), closed: AtomicBool::new(false), sizes: vec![] })
+            })
+            .collect(),
+    );
+    // tcp: local port of connector j (0: not connected yet), (connecting descriptor, peer port) of every accepted socket
+    let ports: Arc<Vec<AtomicU64>> = Arc::new((0..conns).map(|_| AtomicU64::new(0)).collect());
+    let accepted: Arc<Mutex<Vec<(u64, u64)>>> = Arc::new(Mutex::new(vec![]));
+    enum Addr {
+        U(std::path::PathBuf),
+        T(std::net::SocketAddr),
+    }
+    let mut addrs: Vec<Addr> = vec![];
+    for i in 0..nl {
+        let l = LBASE + 2 * i as u64;
+        let cnt = (0..conns).filter(|j| j % nl == i).count();
+        let late = if alate > 0 { ctx.rand() % (alate + 1) } else { 0 };
+        let (dirs, accepted) = (dirs.clone(), accepted.clone());
+        let seeds: Vec<u64> = (0..conns).map(|_| ctx.rand() | 1).collect();
+        if tcp {
+            let lst = may::net::TcpListener::bind("127.0.0.1:0").expect("bind");
+            tap::track_listener(lst.as_raw_fd(), l, false);
+            addrs.push(Addr::T(lst.local_addr().expect("addr")));
+            jobs.push((format!("l{i}.acc"), true, Box::new(move || {
+                let c = mayv::ctx();
+                if late > 0 {
+                    may::coroutine::sleep(std::time::Duration::from_nanos(late));
+                }
+                for k in 0..cnt {
+                    brk();
+                    tap::call_acc(l);
+                    match lst.accept() {
+                        Ok((s, peer)) => {
+                            let who = tap::last_accepted(l).unwrap_or(0xffff);
+                            tap::ret_ok(l, 0, who as usize);
+                            accepted.lock().unwrap().push((who, peer.port() as u64));
+                            drop(s);
+                        }
+                        Err(e) => {
+                            tap::ret_err(l);
+                            c.fail(format!("acceptor {i}: accept number {k} failed: {e}"));
+                            return;
+                        }
+                    }
+                }
+                drop(lst);
+            })));
+        } else {
+            let path = std::path::PathBuf::from(format!("/tmp/mayv_{}_{i}.sock", std::process::id()));
+            let _ = std::fs::remove_file(&path);
+            let lst = may::os::unix::net::UnixListener::bind(&path).expect("bind");
+            tap::track_listener(lst.as_raw_fd(), l, true);
+            addrs.push(Addr::U(path.clone()));
+            jobs.push((format!("l{i}.acc"), true, Box::new(move || {
+                let c = mayv::ctx();
+                if late > 0 {
+                    may::coroutine::sleep(std::time::Duration::from_nanos(late));
+                }
+                let mut handlers = vec![];
+                for k in 0..cnt {
+                    brk();
+                    tap::call_acc(l);
+                    match lst.accept() {
+                        Ok((mut s, _)) => {
+                            let who = tap::last_accepted(l).unwrap_or(0xffff);
+                            tap::ret_ok(l, 0, who as usize);
+                            let j = (who / 2) as usize;
+                            if who == 0xffff || j >= dirs.len() {
+                                c.fail(format!("acceptor {i}: accept number {k} returned a connection nobody issued"));
+                                return;
+                            }
+                            accepted.lock().unwrap().push((who, 0));
+                            let d = dirs[j].clone();
+                            let sd = seeds[j];
+                            let h = unsafe {
+                                may::coroutine::Builder::new().name(format!("l{i}.srv{j}")).spawn(move || {
+                                    read_stream(&mut s, &d, &mut Rng(sd), maxbuf, "server", if tap_on { who ^ 1 } else { NOF });
+                                }).unwrap()
+                            };
+                            handlers.push(h);
+                        }
+                        Err(e) => {
+                            tap::ret_err(l);
+                            c.fail(format!("acceptor {i}: accept number {k} failed: {e}"));
+                            return;
+                        }
+                    }
+                }
+                for h in handlers {
+                    if h.join().is_err() {
+                        c.fail(format!("acceptor {i}: a server side coroutine panicked"));
+                    }
+                }
+                drop(lst);
+                let _ = std::fs::remove_file(&path);
+            })));
+        }
+    }
+    let addrs = Arc::new(addrs);
+    for j in 0..conns {
+        let f = 2 * j as u64;
+        let i = j % nl;
+        let l = LBASE + 2 * i as u64;
+        let late = if clate > 0 { ctx.rand() % (clate + 1) } else { 0 };
+        let sd = ctx.rand() | 1;
+        let (dirs, addrs, ports) = (dirs.clone(), addrs.clone(), ports.clone());
+        jobs.push((format!("c{j}.conn"), true, Box::new(move || {
+            let c = mayv::ctx();
+            if late > 0 {
+                may::coroutine::sleep(std::time::Duration::from_nanos(late));
+            }
+            brk();
+            tap::pend_connect(f, l);
+            match &addrs[i] {
+                Addr::U(path) => {
+                    // UnixStreamConnect::subscribe always arms a 2 s timer
+                    tap::call_co(f, l, Some(2_000_000_000));
+                    match may::os::unix::net::UnixStream::connect(path) {
+                        Ok(mut s) => {
+                            tap::ret_ok(f, 0, 0);
+                            let d = dirs[j].clone();
+                            write_stream(&mut s, &d, &mut Rng(sd), maxchunk, false, "client", if tap_on { f } else { NOF });
+                            d.closed.store(true, Ordering::SeqCst);
+                            drop(s);
+                        }
+                        Err(e) => {
+                            tap::ret_err(f);
+                            c.fail(format!("connector {j}: connect failed: {e}"));
+                        }
+                    }
+                }
+                Addr::T(addr) => {
+                    tap::call_co(f, l, None);
+                    match may::net::TcpStream::connect(addr) {
+                        Ok(s) => {
+                            tap::ret_ok(f, 0, 0);
+                            ports[j].store(s.local_addr().map(|a| a.port() as u64).unwrap_or(0), Ordering::SeqCst);
+                            drop(s);
+                        }
+                        Err(e) => {
+                            tap::ret_err(f);
+                            c.fail(format!("connector {j}: connect failed: {e}"));
+                        }
+                    }
+                }
+            }
+        })));
+    }
+    if refuse {
+        // a port nobody listens on: bind, note the port, close
+        let dead = {
+            let l = std::net::TcpListener::bind("127.0.0.1:0").expect("bind");
+            l.local_addr().expect("addr")
+        };
+        let f = 2 * conns as u64;
+        let late = if clate > 0 { ctx.rand() % (clate + 1) } else { 0 };
+        jobs.push(("refused.conn".into(), true, Box::new(move || {
+            let c = mayv::ctx();
+            if late > 0 {
+                may::coroutine::sleep(std::time::Duration::from_nanos(late));
+            }
+            brk();
+            tap::pend_connect(f, 250);
+            tap::call_co(f, 250, None);
+            match may::net::TcpStream::connect(dead) {
+                Ok(_) => {
+                    tap::ret_ok(f, 0, 0);
+                    c.fail("connect to a port nobody listens on returned Ok".to_string());
+                }
+                Err(e) => {
+                    tap::ret_err(f);
+                    if e.kind() != std::io::ErrorKind::ConnectionRefused {
+                        c.fail(format!("connect to a port nobody listens on failed with {e}, expected ConnectionRefused"));
+                    }
+                }
+            }
+        })));
+    }
+    // the final comparison runs after everybody has been joined: as the last job to be joined
+    {
+        let (ports, accepted) = (ports.clone(), accepted.clone());
+        ACCEPT_FINAL.lock().unwrap().replace(Box::new(move || {
+            let c = mayv::ctx();
+            let mut acc = accepted.lock().unwrap().clone();
+            if acc.len() != conns {
+                c.fail(format!("{} connections accepted, {conns} connectors", acc.len()));
+            }
+            acc.sort();
+            for w in acc.windows(2) {
+                if w[0].0 == w[1].0 {
+                    c.fail(format!("the connection of descriptor {} was accepted twice", w[0].0));
+                }
+            }
+            if tcp {
+                for (who, port) in acc {
+                    let j = (who / 2) as usize;
+                    if j < ports.len() && ports[j].load(Ordering::SeqCst) != port {
+                        c.fail(format!("accept handed out the connection from port {port} at the position of connector {j} (port {})", ports[j].load(Ordering::SeqCst)));
+                    }
+                }
+            }
+        }));
+    }
+    jobs
+}
+static ACCEPT_FINAL: std::sync::Mutex<Option<Box<dyn FnOnce() + Send>>> = std::sync::Mutex::new(None);
+
 /// What to do with a half of a split stream once its direction is done: drop it (default), which closes a dup of a
 /// socket whose other half is still in use.  Before the repair "CoIo deregisters its fd from the selector before
 /// closing it" (finding F15) that left a dangling epoll registration and later events were written through the
@@ -378,7 +610,10 @@ fn main() {
             "th" => false,
             _ => r % 2 == 0,
         };
-        for cn in 0..conns {
+        if sock == "unixaccept" || sock == "tcpaccept" {
+            jobs = accept_jobs(ctx, sock == "tcpaccept", conns, maxsize, maxchunk, maxbuf, tap_on);
+        }
+        for cn in 0..(if sock == "unixaccept" || sock == "tcpaccept" { 0 } else { conns }) {
             let mk_dir = |ctx: &Ctx, dgram: bool| {
                 let seed = ctx.rand();
                 let total = match ctx.rand() % 8 {
@@ -585,6 +820,9 @@ fn main() {
         }
         for j in joins {
             j();
+        }
+        if let Some(f) = ACCEPT_FINAL.lock().unwrap().take() {
+            f();
         }
     })
 }
